@@ -454,3 +454,47 @@ func VerifH_C18_callback_after_own_flush() {
 	}
 	verif.Assert(seen[1] == 1, "the callback of a delivered packet runs")
 }
+
+// VerifH_C01_send_during_ready_flush: message m1 is buffered while the transport is busy;
+// the transport finishes its write cycle and the hand-off of m1 it triggers is anywhere in
+// its course (flush / drain listeners, debug-log yield points) when the application, on
+// another goroutine, sends m2 -- after its Send(m1) had returned.  The transport receives
+// m1 before m2, each exactly once.
+func VerifH_C01_send_during_ready_flush() {
+	tn := [2]string{transports.POLLING, transports.WEBSOCKET}[verif.Choose(2)]
+	w := newSockWorld(tn, "4")
+	w.preFlush = func() { verif.Yield("flush listener") }
+	w.preDrain = func() { verif.Yield("drain listener") }
+	var m2 io.Reader
+	verif.Event("the application sends the next message on its own goroutine", func() {
+		m2 = types.NewStringBufferString("m2")
+		go w.sock.Send(m2, nil, nil)
+		verif.Settle()
+	})
+	w.send(0, false)       // the transport is busy
+	m1 := w.send(1, false) // buffered; Send has returned
+	verif.InjectBudget(1)
+	w.ft.complete() // write cycle done: ready -> hand-off of m1
+	verif.InjectBudget(0)
+	verif.Settle()
+	for i := 0; i < 3; i++ {
+		w.ft.complete()
+		verif.Settle()
+	}
+	i1, i2, n1, n2 := -1, -1, 0, 0
+	for i, p := range w.ft.flat() {
+		if p.Data == m1 {
+			i1 = i
+			n1++
+		}
+		if m2 != nil && p.Data == m2 {
+			i2 = i
+			n2++
+		}
+	}
+	verif.Assert(n1 == 1, "m1 reaches the transport exactly once")
+	if m2 != nil {
+		verif.Assert(n2 == 1, "m2 reaches the transport exactly once")
+		verif.Assert(i1 < i2, "in the order the application sent them")
+	}
+}
